@@ -193,7 +193,7 @@ def build(spec, scratch=None, stop_at=None, tolerate_flagged=False):
                         oref = b.items[(i, oref['$origin'])].origin_reference
                 kwargs['origin_reference'] = oref
             if op['t'] == 'channel':
-                if op.get('data') is not None and (inline_all or j in inline_ops):
+                if op.get('data') is not None and (inline_all or j in inline_ops or op.get('data_inline')):
                     arr = model.make_array(op['data'])
                     kwargs['data'] = arr
                     b.supplied[f"{i}:{op.get('dsname') or op['name']}"] = arr
